@@ -245,3 +245,92 @@ func VerifHarness_C10_O6() {
 	}
 	verifReach("end")
 }
+
+// C10/O7 — bounded system level, LEAVE: four real cores; a leave request of
+// validator 3 (signed by it) is submitted to a chosen node at a chosen moment;
+// one of the early exchanges may be dropped or truncated (symbolic bits).
+// Validator 3 stops gossiping once it has itself delivered the block carrying
+// its request.  All four nodes end with the same history: genesis (4) and, at
+// round-received + 6, genesis without validator 3; lookups switch exactly at
+// the effective round; the remaining three keep delivering blocks beyond it.
+func VerifHarness_C10_O7() {
+	s := verifNewSys(4)
+	itx := hg.NewInternalTransactionLeave(*s.peers[3])
+	ih, _ := itx.Body.Hash()
+	itx.Signature = verifSignature(verifKey(3), ih, true)
+	at := []int{4, 13}[verifChoice("leaveSubmittedAt", 2)]
+	target := []int{3, 0}[verifChoice("leaveSubmittedTo", 2)]
+	perturbed := false
+	gone := false
+	window := 11
+	if verifTier() > 0 {
+		window = 17
+	}
+	for st := 0; st < 192; st++ {
+		to := st % 4
+		from := (to + 1 + (st/4)%3) % 4
+		if st == at {
+			s.nodes[target].c.addInternalTransaction(itx)
+		}
+		if !gone {
+			for _, b := range s.nodes[3].blocks {
+				if len(b.InternalTransactions()) > 0 {
+					gone = true
+				}
+			}
+		}
+		if gone && (to == 3 || from == 3) {
+			continue
+		}
+		limit := -1
+		if !perturbed && st >= 5 && st < window {
+			if verifNondetBool(fmt.Sprintf("drop%d", st)) {
+				perturbed = true
+				continue
+			}
+			if verifNondetBool(fmt.Sprintf("truncate%d", st)) {
+				perturbed = true
+				limit = 1
+			}
+		}
+		if err := s.pull(from, to, limit); err != nil {
+			panic(fmt.Sprintf("step %d (%d<-%d): %v", st, to, from, err))
+		}
+	}
+	live := &verifSys{nodes: s.nodes[:3], peers: s.peers, txSeq: s.txSeq}
+	live.checkInvariants(0)
+	rr := -1
+	for _, b := range s.nodes[0].blocks {
+		if len(b.InternalTransactions()) > 0 {
+			rr = b.RoundReceived()
+			verifAssert("request-committed-once", len(b.InternalTransactions()) == 1 && len(b.InternalTransactionReceipts()) <= 1)
+		}
+	}
+	if rr < 0 || !gone {
+		verifAssume(false) // the request was not committed everywhere within the bound for this schedule
+	}
+	for i, nd := range s.nodes {
+		all, err := nd.c.hg.Store.GetAllPeerSets()
+		verifAssert(fmt.Sprintf("node%d-history-has-exactly-genesis-and-one-change", i), err == nil && len(all) == 2)
+		gen, okg := all[0]
+		verifAssert(fmt.Sprintf("node%d-genesis-unchanged", i), okg && len(gen) == 4)
+		chg, okc := all[rr+6]
+		verifAssert(fmt.Sprintf("node%d-change-effective-at-round-received-plus-6", i), okc)
+		if okc {
+			verifAssert(fmt.Sprintf("node%d-new-set-is-genesis-without-the-leaver", i), len(chg) == 3 && chg[0].PubKeyHex == s.peers[0].PubKeyHex && chg[1].PubKeyHex == s.peers[1].PubKeyHex && chg[2].PubKeyHex == s.peers[2].PubKeyHex)
+		}
+		before, _ := nd.c.hg.Store.GetPeerSet(rr + 5)
+		atSet, _ := nd.c.hg.Store.GetPeerSet(rr + 6)
+		verifAssert(fmt.Sprintf("node%d-old-set-until-the-effective-round", i), before != nil && len(before.Peers) == 4 && atSet != nil && len(atSet.Peers) == 3)
+	}
+	verifAssert("leaver-knows-its-removal-round", s.nodes[3].c.removedRound == rr+6)
+	nb := len(s.nodes[0].blocks)
+	if nb > 0 && s.nodes[0].blocks[nb-1].RoundReceived() > rr+6 {
+		verifReach("blocks-delivered-beyond-the-effective-round")
+		// such a block carries the hash of the reduced set
+		ps, _ := s.nodes[0].c.hg.Store.GetPeerSet(rr + 6)
+		ph, _ := ps.Hash()
+		verifAssert("block-beyond-the-effective-round-carries-the-reduced-set", string(s.nodes[0].blocks[nb-1].PeersHash()) == string(ph))
+	}
+	verifReach("end")
+}
